@@ -115,7 +115,7 @@ def build(spec, overrides=None):
         els[o["id"]] = make_origin(o, overrides.get(o["id"]))
     for d in spec["dests"]:
         els[d["id"]] = make_dest(d)
-    net = Network(spec.get("name", "net"))
+    net = Network(spec.get("name") or "net") if spec.get("name", "net") is not None else Network()
     done = set()
     for op in spec.get("plan") or []:
         kind = op[0]
@@ -218,7 +218,9 @@ def ic_numpy(els, state):
 
 
 def pars_kwargs(spec):
-    return {k: v for k, v in spec["pars"].items() if v is not None}
+    d = dict(spec.get("extra_pars") or {})
+    d.update({k: v for k, v in spec["pars"].items() if v is not None})
+    return d
 
 
 def opts_kwargs(opts):
@@ -226,11 +228,21 @@ def opts_kwargs(opts):
     return {name: True for name in (opts or [])}
 
 
+def arrayify(els):
+    """Turn rates as 0-d NumPy arrays: a legitimate parameter type for the NumPy engine (only for networks
+    that are stepped with the NumPy engine exclusively)."""
+    for el in els.values():
+        if hasattr(el, "turnrate") and not isinstance(el.turnrate, np.ndarray):
+            el.turnrate = np.array(float(el.turnrate))
+
+
 def step_numpy(spec, state, opts=None, engine=None, built=None):
     """Builds a fresh network, steps it with the NumPy engine; returns (next, built)."""
     from lib.sut import NumpyEngine
 
     net, els, nodes = built or build(spec)
+    if spec.get("array_params"):
+        arrayify(els)
     eng = engine or NumpyEngine()
     net.step(
         init_conditions=ic_numpy(els, state),
